@@ -3,7 +3,7 @@ CONSTANTS
   NConn = 2
   MaxReq = 1
   MaxReq2 = 1
-  Protos <- AllProtos
+  Protos <- H1Only
   TlsModes <- BothBool
   MakeModes <- OnlyFalse
   MaxFaults = 1
